@@ -155,121 +155,178 @@ def predicted_stdout(evs):
     return out
 
 
+def coverage_behaviours(tier, v):
+    """All transitions of the exhaustive model, each with the history that reaches it (ACTION_CONSTRAINT
+    EmitStep); returns the maximal histories as behaviours."""
+    cfg = "MC_Sched_q_cov" if tier == "quick" else "MC_Sched_t_cov"
+    r = vlib.tlc("MC_Sched", cfg, workers=min(vlib.NCPU, 12), timeout=3300, heap="24g")
+    if r["timeout"] or r["distinct"] == 0 or "is violated" in r["out"]:
+        raise vlib.ToolError("TLC coverage run failed:\n" + r["out"][-1500:])
+    steps = vlib.tlc_json(r["out"], "STEP")
+    if len(steps) < r["states"] - 1:
+        raise vlib.ToolError(f"coverage run printed {len(steps)} steps for {r['states']} transitions")
+    v.cov["states"] += r["distinct"]
+    v.cov["transitions"] += r["states"]
+    classes = collections.Counter()
+    for st in steps:
+        if st["end"] != "run":
+            cls = st["bad"] if st["bad"] != "none" else st["end"]
+            if cls not in ("exit", "error", "deadlock"):
+                classes[cls] += 1
+    v.notes["mc_config"] = cfg
+    v.notes["mc_transitions_printed"] = len(steps)
+    v.notes["mc_bad_terminal_classes"] = dict(classes)
+    mx = schedlib.maximal_histories(steps)
+    v.notes["mc_maximal_histories"] = len(mx)
+    return [schedlib.parse_compact(m) for m in mx]
+
+
+def model_classes(pred):
+    """Defect classes the as-is model itself predicts for a behaviour."""
+    out = []
+    if pred["bad"] != "none":
+        out.append(pred["bad"])
+    if pred["end"].startswith("panic:"):
+        out.append(pred["end"])
+    return out
+
+
 def run(pid, tier, replay=None):
     v = vlib.Verdict(pid, tier)
     v.cov["rule"] = ("programs = fiber scripts over {send,recv,close,launch} chosen by TLC from the as-is scheduler "
-                     "model (exhaustive for 3 fibers x 2 channels x 3 ops, simulated for 4 x 3 x 5) plus the "
-                     "repository's channel/launch fixtures; a case is non-trivial if at least one fiber blocks, "
-                     "sleeps or is launched; distinct by program text")
+                     "model: one program per maximal history of the exhaustive state graph (every transition of the "
+                     "model is exercised, 3 fibers x 2 channels x 3 ops quick / 3 x 3 x 4 thorough), simulated "
+                     "behaviours for 4 x 3 x 5, plus the repository's channel/launch fixtures; a case is non-trivial "
+                     "if at least one fiber blocks, sleeps or is launched; distinct by program text")
     v.assumptions = ["hook events are emitted at the points named in MANIFEST.hooks (after the channel operation, "
-                     "before the next instruction)",
-                     "generated programs end on the first runtime error (no try/catch around channel operations)"]
+                     "before the next instruction; the queue/switch hooks after the assertion they follow)",
+                     "generated programs end on the first runtime error (no try/catch around channel operations)",
+                     "a run whose observed stream equals the model's prediction inherits the contract verdict TLC "
+                     "computed for that behaviour of Sched.tla (composed with Fibers.tla); runs that differ, a "
+                     "sample of the others and all fixture runs are validated against Fibers.tla directly"]
     binary = vlib.build_harness()
     kfi = kf_index()
 
+    cases, preds, mode = [], {}, {}
     if replay:
         rp = json.load(open(replay))["replay"]
         cases = [rp["case"]]
-        preds = {rp["case"]["id"]: rp.get("predicted")}
+        preds[rp["case"]["id"]] = rp.get("predicted")
+        mode[rp["case"]["id"]] = "prefix"
     else:
-        classes = mc_exhaustive(tier, v)
-        wit = witnesses(classes)
-        behs = simulate(tier, v)
-        cases, preds = [], {}
-        caps, syncs = CAPS["q"]
-        for cls, b in wit.items():
-            cid = "wit:" + cls
+        caps, syncs = CAPS["q"] if tier == "quick" else CAPS["sim"]
+        for i, b in enumerate(coverage_behaviours(tier, v)):
+            cid = f"cov:{i}"
             cases.append(schedlib.behaviour_to_case(b, caps, syncs, cid))
             preds[cid] = b
+            mode[cid] = "prefix"
         caps, syncs = CAPS["sim"]
-        for i, b in enumerate(behs):
+        for i, b in enumerate(simulate(tier, v)):
             cid = f"sim:{i}"
             cases.append(schedlib.behaviour_to_case(b, caps, syncs, cid))
             preds[cid] = b
-        fx = fixture_cases()
-        cases += fx
-        for c in fx:
+            mode[cid] = "full"
+        for c in fixture_cases():
+            cases.append(c)
             preds[c["id"]] = None
+            mode[c["id"]] = "none"
 
-    results = vlib.run_batch(binary, cases, per_case_timeout=15)
-    runs = []
-    drift = []
+    results = vlib.run_batch(binary, cases, per_case_timeout=20, jobs=vlib.NCPU)
     nontrivial = 0
     seen_src = set()
+    to_validate = []
+    verdicts = {}     # cid -> list of (class, detail, attributable)
+    drift = []
+    rnd = __import__("random").Random(vlib.seed())
     for c in cases:
-        r = results.get(c["id"])
+        cid = c["id"]
+        r = results.get(cid)
         if r is None:
-            raise vlib.ToolError("no result for case " + c["id"])
+            raise vlib.ToolError("no result for case " + cid)
         obs = [schedlib.norm_event(e) for e in r.get("events", [])]
         r["_obs"] = obs
-        runs.append((c["id"], obs))
         src = c["files"]["main.lay"]
         if src not in seen_src:
             seen_src.add(src)
-            if any(e["ev"] in ("launch",) or (e["ev"] in ("send", "recv") and e["res"] not in ("ok", "closed")) for e in obs):
+            if any(e["ev"] == "launch" or (e["ev"] in ("send", "recv") and e["res"] not in ("ok", "closed")) for e in obs):
                 nontrivial += 1
+        pred = preds.get(cid)
+        probs = []
+        diff = None
+        if pred is not None:
+            diff = schedlib.first_diff(pred["evs"], obs, prefix=(mode[cid] == "prefix" or pred["end"] == "run"))
+        r["_diff"] = diff
+        if r["status"] == "hang":
+            probs.append(("hang", "no result within the per-case timeout", False))
+        elif r["status"] == "crash":
+            probs.append(("crash", f"child died with signal/status {r.get('signal')}", False))
+        if pred is not None and diff is None:
+            # the observed stream is a behaviour of Sched.tla: inherit TLC's verdict for it
+            for cls in model_classes(pred):
+                probs.append((cls, "as predicted by the as-is model", True))
+            if r["status"] == "panic" and not pred["end"].startswith("panic:") and mode[cid] == "full":
+                probs.append(("panic:unpredicted", r.get("panic", ""), False))
+            if mode[cid] == "full" and rnd.random() < (0.1 if tier == "quick" else 0.02):
+                to_validate.append(cid)
+        else:
+            if r["status"] == "panic":
+                msg = r.get("panic", "")
+                cls = ("panic:activate" if "Pending | FiberState::Unwinding" in msg else
+                       "panic:unblock" if "Blocked | FiberState::Pending" in msg else "panic:other")
+                probs.append((cls, msg + " (not predicted)", False))
+            to_validate.append(cid)
+        verdicts[cid] = probs
     v.cov["evaluations"] = len(cases)
     v.cov["distinct_nontrivial"] = nontrivial
-    v.cov["traces_validated_against_impl"] = len(runs)
 
-    rej = validate_traces(runs, v)
+    rej = validate_traces([(cid, results[cid]["_obs"]) for cid in to_validate], v) if to_validate else {}
+    v.cov["traces_validated_against_impl"] = len(to_validate)
+    v.notes["streams_equal_to_model_prediction"] = sum(1 for c in cases if preds.get(c["id"]) is not None and results[c["id"]]["_diff"] is None)
+    for cid in to_validate:
+        pred = preds.get(cid)
+        matches = pred is not None and results[cid]["_diff"] is None
+        if cid in rej:
+            cls, at = rej[cid]
+            if matches:
+                # the sampled validation must agree with the verdict TLC computed on the model
+                if cls not in [c for c, _, _ in verdicts[cid]]:
+                    verdicts[cid].append((cls, f"contract rejects observed event #{at} although the model run accepted it", False))
+            else:
+                verdicts[cid].append((cls, f"contract rejects observed event #{at}", False))
+        elif pred is not None and not matches:
+            d = results[cid]["_diff"]
+            drift.append({"case": cid, "at": d[0], "predicted": d[1], "observed": d[2]})
 
-    counts = collections.Counter()
+    # stdout must be what the observed receives say (binds print(<- c) to the delivered value)
     for c in cases:
         cid = c["id"]
         r = results[cid]
-        pred = preds.get(cid)
-        obs = r["_obs"]
-        diff = schedlib.first_diff(pred["evs"], obs, prefix=(pred["end"] == "run")) if pred else None
-        matches_pred = pred is not None and diff is None
-        problems = []   # (class, detail)
-        if r["status"] == "hang":
-            problems.append(("hang", "no result within the per-case timeout"))
-        elif r["status"] == "crash":
-            problems.append(("crash", f"child died with signal/status {r.get('signal')}"))
-        elif r["status"] == "panic":
-            msg = r.get("panic", "")
-            if "fiber/mod.rs" in msg and "FiberState::Pending | FiberState::Unwinding" in msg:
-                cls = "panic:activate"
-            elif "fiber/mod.rs" in msg and "FiberState::Blocked | FiberState::Pending" in msg:
-                cls = "panic:unblock"
-            else:
-                cls = "panic:other"
-            # the as-is model predicts a panic through its `end`
-            if matches_pred and pred["end"] == cls:
-                problems.append((cls, msg))
-            else:
-                problems.append((cls + ":unpredicted", msg))
-        if cid in rej:
-            problems.append((rej[cid][0], f"contract rejects observed event #{rej[cid][1]}"))
-        # stdout must be what the observed receives say (binds print(<- c) to the delivered value)
         if r["status"] in ("ok", "runtime_error") and not cid.startswith("fx:"):
-            want = predicted_stdout(obs)
-            got = [l for l in r.get("stdout", "").splitlines()]
+            want = predicted_stdout(r["_obs"])
+            got = r.get("stdout", "").splitlines()
             if want != got:
-                problems.append(("guard:stdout", f"printed {got[:6]} but receive events say {want[:6]}"))
-        if pred and diff is not None and not problems:
-            drift.append({"case": cid, "at": diff[0], "predicted": diff[1], "observed": diff[2]})
-        for cls, detail in problems:
+                verdicts[cid].append(("guard:stdout", f"printed {got[:6]} but receive events say {want[:6]}", False))
+
+    counts = collections.Counter()
+    bycase = {c["id"]: c for c in cases}
+    for cid, probs in verdicts.items():
+        for cls, detail, attributable in probs:
             if class_property(cls) != pid:
                 continue
             counts[cls] += 1
             f = kfi.get(cls)
-            if f is not None and matches_pred and pid in f["properties"]:
+            if f is not None and attributable and pid in f["properties"]:
                 v.known_finding(f["id"], cid)
             else:
-                why = "" if matches_pred else (" (as-is model predicted a different stream: first difference "
-                                               f"{diff})" if pred else " (no as-is prediction for this case)")
-                v.violation(f"{cls}: {detail}{why}",
-                            {"case": c, "predicted": pred, "class": cls,
-                             "observed": [schedlib.comparable(e) for e in obs][:200],
+                r = results[cid]
+                v.violation(f"{cls}: {detail}; first difference from the as-is prediction: {r['_diff']}",
+                            {"case": bycase[cid], "predicted": preds.get(cid), "class": cls,
+                             "observed": [list(schedlib.comparable(e)) for e in r["_obs"]][:200],
                              "stdout": r.get("stdout", "")[:2000], "stderr": r.get("stderr", "")[:2000]})
-    v.notes["rejection_classes_observed"] = dict(counts)
+    v.notes["classes_observed"] = dict(counts)
     v.notes["model_drift"] = len(drift) > 0
     v.notes["model_drift_cases"] = drift[:5]
-    v.notes["as_is_conformance"] = {"cases_with_prediction": sum(1 for c in cases if preds.get(c["id"])),
-                                    "stream_mismatches": len(drift)}
-    for c in cases[:3] + [c for c in cases if c["id"].startswith("wit:")][:2]:
+    for c in cases[:2] + cases[len(cases) // 2: len(cases) // 2 + 2] + cases[-2:]:
         v.cov["samples"].append({"id": c["id"], "program": c["files"]["main.lay"],
                                  "observed_events": [list(schedlib.comparable(e)) for e in results[c["id"]]["_obs"]][:40]})
     if drift:
